@@ -246,7 +246,7 @@ func (noDeps) FindDependencies(fsys iofs.FS, subPath string, deps *sourcebundle.
 	return nil
 }
 
-var historyOps = []string{"pack-dot-elsewhere", "pack-dot-elsewhere", "pack-negation-first", "pack-many-rules", "pack-unreadable-rules", "pack-other-tree-links", "unpack", "bundle", "pack-same"}
+var historyOps = []string{"pack-dot-elsewhere", "pack-dot-elsewhere", "pack-negation-first", "pack-many-rules", "pack-unreadable-rules", "pack-other-tree-links", "unpack", "bundle", "pack-same", "pack-deref-loop-fails", "pack-fails-midway"}
 
 func runHistoryOp(op, r string, i int, p *slug.Packer) {
 	defer func() { recover() }()
@@ -279,6 +279,15 @@ func runHistoryOp(op, r string, i int, p *slug.Packer) {
 		p.Pack(dir, &bytes.Buffer{})
 		os.Stderr = old
 		devnull.Close()
+	case "pack-deref-loop-fails":
+		// with dereferencing this Pack fails deep inside nested external directories
+		fsx.Materialise(filepath.Join(r, "h"), fsx.Tree{{Path: "cycdir/f", Kind: "file", Content: "OUT:f"}, {Path: "cycdir/again", Kind: "symlink", Target: "."}}, nil)
+		fsx.Materialise(dir, fsx.Tree{{Path: "a", Kind: "file", Content: "k"}, {Path: "l", Kind: "symlink", Target: "../cycdir"}}, nil)
+		p.Pack(dir, &bytes.Buffer{})
+	case "pack-fails-midway":
+		// a Pack that fails part-way: an out-of-tree link that may not be stored, after other entries
+		fsx.Materialise(dir, fsx.Tree{{Path: "a", Kind: "file", Content: "k"}, {Path: "d/x", Kind: "file", Content: "x"}, {Path: "zz", Kind: "symlink", Target: "../../nowhere/at/all"}}, nil)
+		p.Pack(dir, &bytes.Buffer{})
 	case "pack-other-tree-links":
 		fsx.Materialise(dir, fsx.Tree{{Path: "a", Kind: "file", Content: "k"}, {Path: "l", Kind: "symlink", Target: "a"},
 			{Path: "d/up", Kind: "symlink", Target: "../a"}, {Path: "out", Kind: "symlink", Target: "../ext/f"}}, nil)
@@ -444,6 +453,18 @@ func genCase(t *rapid.T) Case {
 		}
 		if !has {
 			c.Tree = append(c.Tree, fsx.Node{Path: "to-ext", Kind: "symlink", Target: "../ext/f"})
+		}
+	}
+	if rapid.IntRange(0, 2).Draw(t, "extdir?") == 0 {
+		// a link to a directory outside the tree (copied in when dereferencing)
+		has := false
+		for _, n := range c.Tree {
+			if n.Path == "to-extdir" {
+				has = true
+			}
+		}
+		if !has {
+			c.Tree = append(c.Tree, fsx.Node{Path: "to-extdir", Kind: "symlink", Target: "../h/ext"})
 		}
 	}
 	if rapid.IntRange(0, 2).Draw(t, "rulesfile") > 0 {
